@@ -194,6 +194,26 @@ auto uninitialized_copy(boost::gil::bit_aligned_pixel_iterator<NonAlignedPixelRe
     return std::copy(first,last,dst);
 }
 
+// The same holds when the source range is delimited by any other iterator type, for example
+// the step iterator of a flipped or subsampled view of a bit-aligned image
+template <typename InputIterator, typename NonAlignedPixelReference>
+auto uninitialized_copy(InputIterator first, InputIterator last,
+    boost::gil::bit_aligned_pixel_iterator<NonAlignedPixelReference> dst)
+    -> boost::gil::bit_aligned_pixel_iterator<NonAlignedPixelReference>
+{
+    return std::copy(first,last,dst);
+}
+
+// ... and for uninitialized_fill: placement new through the proxy reference would construct the
+// value inside a temporary and leave the pixels untouched
+template <typename NonAlignedPixelReference, typename T>
+void uninitialized_fill(boost::gil::bit_aligned_pixel_iterator<NonAlignedPixelReference> first,
+    boost::gil::bit_aligned_pixel_iterator<NonAlignedPixelReference> last,
+    T const& value)
+{
+    std::fill(first,last,value);
+}
+
 } // namespace std
 
 #endif
